@@ -31,7 +31,7 @@ RULE = ("scenarios {steady (connected, publishers + loop thread), shutdown (disc
         "distinct = distinct choice lists; non-trivial = at least one preemption and at least one packet handed "
         "from a publisher thread to the loop thread")
 EXTRACT_TAGS = ["sched"]
-GENERATED_ITEMS = []
+GENERATED_ITEMS = ["lockgraph"]
 ASSUMPTIONS = [
     "GIL atomicity: one collections.deque append/popleft/appendleft/clear/iterator step, one attribute load or store, "
     "one send()/recv() on the wake pipe are atomic (they are single steps of the model and are never split by the scheduler)",
